@@ -64,11 +64,11 @@ class CellEvent(_Sym):
           'column it denotes and its absolute markers; the value handed to the setter is the value of the reference'
     functions = ('Parser.call_cell_value', 'helper.cell.extract_label', 'helper.cell.Cell', 'grammarparser.parser.p_cell',
                  'grammarparser.lexer.t_ABSOLUTE_CELL', 'grammarparser.lexer.t_MIXED_CELL', 'grammarparser.lexer.t_RELATIVE_CELL')
-    bounds = 'labels $?[A-Za-z]{1,3}$?[1-9][0-9]{0,3} (quick) / {0,6} (thorough), symbolic text lexed symbolically; value a symbolic integer'
+    bounds = 'labels $?[A-Za-z]{1,4}$?[1-9][0-9]{0,3} (quick) / {0,6} (thorough), symbolic text lexed symbolically; value a symbolic integer'
 
     def cases(self, tier):
         rows = (1, 2, 4) if tier == 'quick' else (1, 2, 3, 4, 5, 6, 7)
-        return [{'nl': nl, 'nd': nd, 'ca': ca, 'ra': ra} for nl in (1, 2, 3) for nd in rows for ca in (0, 1) for ra in (0, 1)]
+        return [{'nl': nl, 'nd': nd, 'ca': ca, 'ra': ra} for nl in (1, 2, 3, 4) for nd in rows for ca in (0, 1) for ra in (0, 1)]
 
     def build(self, e, p):
         label, col, row = make_label(e, 'l', p['nl'], p['nd'], p['ca'], p['ra'])
@@ -103,8 +103,8 @@ class RangeEvent(_Sym):
     doc = 'a range reference raises one callRangeValue event carrying the top-left and bottom-right cells however the corners ' \
           'were written, each cell\'s label agreeing with its coordinates'
     functions = ('Parser.call_range_value', 'helper.cell.extract_label', 'helper.cell.to_label', 'grammarparser.parser.p_cell')
-    bounds = 'both corner labels symbolic: 1..2 letters, 1..2 digits (no leading zero), all $ patterns on the first corner; all ' \
-             'four corner orders arise from the symbolic coordinates'
+    bounds = 'both corner labels symbolic: 1..2 letters, 1..2 digits (no leading zero), all $ patterns on either corner; all ' \
+             'four corner orders (and shared rows / columns) arise from the symbolic coordinates'
 
     def cases(self, tier):
         out = []
@@ -113,12 +113,14 @@ class RangeEvent(_Sym):
                 for nd in ((1,) if tier == 'quick' else (1, 2)):
                     for ca in (0, 1):
                         for ra in (0, 1):
-                            out.append({'nl1': nl1, 'nl2': nl2, 'nd': nd, 'ca': ca, 'ra': ra})
+                            out.append({'nl1': nl1, 'nl2': nl2, 'nd': nd, 'ca': ca, 'ra': ra, 'cb': 0, 'rb': 0})
+                    for cb, rb in ((1, 0), (0, 1), (1, 1)):
+                        out.append({'nl1': nl1, 'nl2': nl2, 'nd': nd, 'ca': 0, 'ra': 0, 'cb': cb, 'rb': rb})
         return out
 
     def build(self, e, p):
         l1, c1, r1 = make_label(e, 'a', p['nl1'], p['nd'], p['ca'], p['ra'])
-        l2, c2, r2 = make_label(e, 'b', p['nl2'], p['nd'], 0, 0)
+        l2, c2, r2 = make_label(e, 'b', p['nl2'], p['nd'], p.get('cb', 0), p.get('rb', 0))
         return {'l1': l1, 'l2': l2, 'c1': c1, 'r1': r1, 'c2': c2, 'r2': r2, 'v': e.fresh_int('v')}
 
     def run(self, env, inp, p):
@@ -145,7 +147,11 @@ class RangeEvent(_Sym):
         coords = mkbool(z3.simplify(z3.And(zint(sr) == mn(r1, r2), zint(er) == mx(r1, r2), zint(sc) == mn(c1, c2), zint(ec) == mx(c1, c2))))
         d1 = label_denotes(sl, sr, sc)
         d2 = label_denotes(el, er, ec)
-        return And(coords, d1, d2)
+        # corners written top-left : bottom-right (ties included) are delivered exactly as written, $ markers included
+        w1 = ([36] if p['ca'] else []) + upper_cps(cps_of(inp['c1'])) + ([36] if p['ra'] else []) + list(cps_of(inp['r1']))
+        w2 = ([36] if p.get('cb') else []) + upper_cps(cps_of(inp['c2'])) + ([36] if p.get('rb') else []) + list(cps_of(inp['r2']))
+        in_order = mkbool(z3.simplify(z3.And(r1 <= r2, c1 <= c2)))
+        return And(coords, d1, d2, Implies(in_order, And(str_eq_cps(sl, w1), str_eq_cps(el, w2))))
 
 
 SETTER_TAGS = ['none', 'zero', 'false', 'empty', 'int', 'text']
